@@ -142,7 +142,7 @@ func VerifC16_Teardown() {
 	vAssume(err == nil)
 	ss.Username = "alice"
 	ss.Authenticated = ndBool("authed")
-	stage := ndPick("stage", 3) // how far establishment got: LCP, authenticated without address, fully established
+	stage := ndPick("stage", 4) // how far establishment got: LCP, authenticated without address, fully established, established but already marked closed by the PPP layer
 	switch stage {
 	case 0:
 		ss.State = StateLCPNegotiation
@@ -151,6 +151,10 @@ func VerifC16_Teardown() {
 		ss.State = StateIPCPNegotiation
 	case 2:
 		ss.State = StateEstablished
+		ss.ClientIP = w.pool.Allocate(ss.SessionID)
+	case 3:
+		// a failed re-authentication or the peer's LCP terminate marked the session closed; it still holds everything
+		ss.State = StateClosed
 		ss.ClientIP = w.pool.Allocate(ss.SessionID)
 	}
 	ss.BytesIn, ss.BytesOut = ndU64("in"), ndU64("out")
